@@ -16,7 +16,8 @@ from ..verdict import Verdict
 ID = "C10"
 LEVEL = "exploration"
 RULE = (
-    "Five generated round trips. (config) a FontConfig drawn field by field by introspection of FontConfig._fields (strings: printable "
+    "Five generated round trips and one enumerated table (paths: util.rel(build dir, source) for plain files, files that are symbolic links to a file of another "
+    "name and files behind a linked directory, at four build-directory depths, must name the source by its own path). (config) a FontConfig drawn field by field by introspection of FontConfig._fields (strings: printable "
     "Unicode incl. quotes, backslashes, #, =, brackets, tab/newline, non-BMP; floats; Optional None; 1-3 axes; 1-3 masters with dotted/spaced "
     "names and absolute sources) is written with config.write and loaded with config.load: equal field for field; with a subset of fields also "
     "given as absl flags and a subset omitted from the file the result must be flag > file > default; unknown keys must raise. (glyphmap) rows "
@@ -217,6 +218,60 @@ def enumerate_cases(tier):
                 names.add("in/" + n + ".svg")
         if names:
             yield {"t": "rsp", "names": sorted(names)}
+    # paths as the driver hands them to the steps (relative to the build directory): plain files, files that are symbolic links
+    # to a file of another name, files reached through a linked directory; build directories at several depths
+    for i, bd in enumerate(["build", "out/b", "deep/er/build", "../elsewhere/b"]):
+        for kind in ("plain", "file-link", "dir-link"):
+            yield {"t": "rel", "build_dir": bd, "kind": kind, "name": ["emoji_u1f31f.svg", "1F600-200D-1F601.svg", "odd name é.svg"][i % 3]}
+
+
+def judge_rel(case, v):
+    """util.rel(build_dir, source) is what ninja.rel_build writes into build.ninja and the glyph map: joined to the build directory
+    it must name the source by its own path - a source's *name* carries its codepoints, so a link must not be replaced by its
+    target."""
+    import tempfile
+    from pathlib import Path
+
+    from nanoemoji import util
+
+    root = tempfile.mkdtemp(prefix="nanoverif-c10rel-")
+    try:
+        proj = os.path.join(root, "proj")
+        os.makedirs(os.path.join(proj, "art"))
+        os.makedirs(os.path.join(proj, "src"))
+        target = os.path.join(proj, "art", "blue_square.svg")
+        with open(target, "w") as fh:
+            fh.write("<svg/>")
+        name = case["name"]
+        if case["kind"] == "plain":
+            src = os.path.join(proj, "src", name)
+            shutil.copy(target, src)
+        elif case["kind"] == "file-link":
+            src = os.path.join(proj, "src", name)
+            os.symlink(os.path.join("..", "art", "blue_square.svg"), src)
+        else:
+            os.symlink("art", os.path.join(proj, "linked"))
+            shutil.copy(target, os.path.join(proj, "art", name))
+            src = os.path.join(proj, "linked", name)
+        bd = os.path.normpath(os.path.join(proj, case["build_dir"]))
+        os.makedirs(bd, exist_ok=True)
+        v.cls("rel:" + case["kind"])
+        v.nontrivial = case["kind"] != "plain"
+        try:
+            r = util.rel(Path(bd), Path(src))
+        except Exception as e:
+            v.fail("rel-raised", type(e).__name__, {"error": repr(e), "case": case})
+            return
+        joined = os.path.normpath(os.path.join(bd, str(r)))
+        # the same file under the same *name* (directories on the way may be spelled differently, e.g. a resolved directory link)
+        if not os.path.exists(joined) or not os.path.samefile(joined, src):
+            v.fail("path-changed", case["kind"] + ":other-file", {"build_dir": bd, "source": src, "rel": str(r), "names": joined})
+        elif os.path.basename(joined) != os.path.basename(src):
+            v.fail("path-changed", case["kind"] + ":other-name", {"build_dir": bd, "source": src, "rel": str(r), "names": joined})
+        elif os.path.isabs(str(r)):
+            v.fail("path-not-relative", case["kind"], {"rel": str(r)})
+    finally:
+        shutil.rmtree(root, ignore_errors=True)
 
 
 # --------------------------------------------------------------------------------------------- judges
@@ -474,7 +529,7 @@ def judge(case):
     v = Verdict()
     t = case["t"]
     v.cls("kind:" + t)
-    {"config": judge_config, "glyphmap": judge_glyphmap, "rsp": judge_rsp, "names": judge_names, "parts": judge_parts}[t](case, v)
+    {"config": judge_config, "glyphmap": judge_glyphmap, "rsp": judge_rsp, "names": judge_names, "parts": judge_parts, "rel": judge_rel}[t](case, v)
     return v
 
 
